@@ -32,7 +32,7 @@ m = {
          "kind_free_text": "Go test packages (one per property) that drive the real go-libp2p code under generated/hostile workloads, virtual time (testing/synctest) and fault scripts while monitors (reference models, recorded-history checkers, invariant hooks, Go race detector) watch; driver /verif/check maps results to the exit-code contract"},
     ],
     "checks": [],
-    "notes": "Runtime monitoring only. `check <id> thorough` adds a -race pass for properties with concurrent workloads. Known findings: /verif/known_findings.json. Seeded mutants: /verif/seeded/. See DESIGN.md.",
+    "notes": "Runtime monitoring only. Both tiers of `check <id>` add a -race pass over the property's concurrent workloads for the 15 properties in the driver's RACE table (a report with frames in the property's anchor files is a VIOLATION; a crash of the Go race runtime itself is retried and then reported as an inconclusive race pass, see DESIGN.md 7.2). Known findings: /verif/known_findings.json. Seeded mutants: /verif/seeded/. See DESIGN.md.",
     "not_applicable": [],
 }
 for pid in props:
